@@ -90,6 +90,39 @@ def template_render(jinja2, cfg, src):
         return "X:" + type(e).__name__
 
 
+PAIRS = [(" if true ", " endif "), (" for i in [1] ", " endfor "), (" with y = 2 ", " endwith "), (" block b%d ", " endblock "),
+         (" if 1 < 2 ", " endif "), (" for k, v in {'a': 1}|dictsort ", " endfor "), (" filter string ", " endfilter ")]
+
+
+def pair_blocks(src, rng):
+    """the same template with its block tags instantiated pairwise by other statements that render their body
+    exactly once (if / for over one item / with / block / filter string) instead of `set`; the documented
+    output is unchanged"""
+    body = " set x = 1 "
+    n = src.count(body)
+    if n < 2:
+        return None
+    out, i, pos, cnt = [], 0, 0, 0
+    chosen = None
+    while True:
+        j = src.find(body, pos)
+        if j < 0:
+            break
+        out.append(src[pos:j])
+        if i % 2 == 0 and i + 1 < n:
+            chosen = rng.choice(PAIRS)
+            cnt += 1
+            out.append(chosen[0] % cnt if "%d" in chosen[0] else chosen[0])
+        elif i % 2 == 1:
+            out.append(chosen[1])
+        else:
+            out.append(body)
+        pos = j + len(body)
+        i += 1
+    out.append(src[pos:])
+    return "".join(out)
+
+
 def judge(jinja2, cfg, src, spec_v, with_template=True):
     got = real_render(jinja2, cfg, src)
     if got != "D " + spec_v:
@@ -140,21 +173,22 @@ def run(ctx):
     tags1 = all_tags(TEXTS[:6], raw_full=True)
     tags2 = all_tags(TEXTS[:3], raw_full=False)
     sks = []
-    for a in TEXTS:
+    one_texts = TEXTS if ctx.tier == "thorough" else TEXTS[:5]      # quick: 5 x 5 texts (the 8 x 8 product is thorough)
+    for a in one_texts:
         for g in tags1:
-            for b in TEXTS:
+            for b in one_texts:
                 sks.append(("default", skel([a, g, b])))
     # the same one-tag skeletons in environments WITH line_statement_prefix / line_comment_prefix configured
     # (the texts contain neither prefix): the sign / lstrip handling must not depend on the extra root rules
     one_tag = [s for s in sks]
     for name in ("line", "linepct"):
-        for _, k in ctx.rng.sample(one_tag, ctx.size(2500, 12000)):
+        for _, k in ctx.rng.sample(one_tag, ctx.size(1500, 12000)):
             sks.append((name, k))
     two = [(a, g1, b, g2, c) for a in TEXTS[:6] for g1 in tags2 for b in TEXTS[:6] for g2 in tags2 for c in TEXTS[:6]]
-    two = ctx.rng.sample(two, ctx.size(8000, 120000))      # of ~380 k; the full product takes > 15 min
+    two = ctx.rng.sample(two, ctx.size(4000, 120000))      # of ~380 k; the full product takes > 15 min
     for p in two:
         sks.append(("default", skel(list(p))))
-    for _ in range(ctx.size(4000, 25000)):
+    for _ in range(ctx.size(3000, 25000)):
         n = ctx.rng.randint(1, 6)
         parts = []
         for i in range(n):
@@ -177,7 +211,7 @@ def run(ctx):
         for g in [g for g in cr_tags if g[0] in "bc"]:
             for b in CR_TEXTS:
                 cr_sks.append([a, g, b])
-    for _ in range(ctx.size(4000, 25000)):
+    for _ in range(ctx.size(3000, 25000)):
         parts = []
         for i in range(ctx.rng.randint(1, 5)):
             parts.append("".join(ctx.rng.choice([" ", "\r", "\r\n", "\n", "\t", "a", "b\r", " \r "]) for _ in range(ctx.rng.randint(0, 4))))
@@ -201,12 +235,16 @@ def run(ctx):
                 raw_parts.append(p_)
                 norm_parts.append(p_)
         k_raw, k_norm = skel(raw_parts), skel(norm_parts)
-        sts = settings if len(parts) <= 3 else [ctx.rng.choice(settings), (True, True)]
+        sts = (settings if ctx.tier == "thorough" else ctx.rng.sample(settings, 2)) if len(parts) <= 3 else [ctx.rng.choice(settings), (True, True)]
         for t, l in sts:
             cases.append((L.Cfg(ctx.rng.choice(["default", "default", "asp"]) if len(parts) > 3 else "default", t, l), k_raw, k_norm))
             ctx.count("cr_forms")
     klines = ctx.driver("lex", ["K %s %s" % (c.enc(), k) for c, k, _ in cases])
-    nlines = ctx.driver("lex", ["K %s %s" % (c.enc(), kn) for c, _, kn in cases])
+    need = [i for i, (c, k, kn) in enumerate(cases) if kn != k]
+    nl_out = ctx.driver("lex", ["K %s %s" % (cases[i][0].enc(), cases[i][2]) for i in need]) if need else []
+    nlines = list(klines)
+    for i, o in zip(need, nl_out):
+        nlines[i] = o
     srcs = []
     for (c, k, kn), kl, nl_ in zip(cases, klines, nlines):
         src = L.dec_str(kl.split(" ")[0])
@@ -227,6 +265,24 @@ def run(ctx):
         if w:
             ctx.reject(case, w, "C12:%s:%s" % (k, c.key()))
             continue
+        if idx % 8 == 1:
+            # another entry point / environment class
+            route = ctx.rng.choice(L.ROUTES)
+            got = L.safe_route(jinja2, route, c, src)
+            ctx.count("route_" + route)
+            if got != "D " + spec_v:
+                ctx.reject(dict(case, route=route), "%s renders %r, documented rules give %r" % (route, got, spec_v),
+                           "C12:route:%s:%s:%s" % (route, k, c.key()))
+                continue
+        if idx % 8 == 5:
+            src2 = pair_blocks(src, ctx.rng)
+            if src2 is not None:
+                got = real_render(jinja2, c, src2)
+                ctx.count("paired_block_statements")
+                if got != "D " + spec_v:
+                    ctx.reject(dict(case, src=src2), "with if/for/with/block/filter tags: render %r, documented rules give %r" % (got, spec_v),
+                               "C12:paired:%r:%s" % (src2, c.key()))
+                    continue
         r = L.real_run(jinja2, L.env_for(jinja2, c), src)
         if m.canon() != r:
             ctx.model_mismatch("K-lex tokeniter", case, repr(m.canon())[:400], repr(r)[:400], None)
@@ -260,3 +316,14 @@ def replay(ctx, data):
     w = judge(jinja2, c, src, spec_v)
     if w:
         ctx.reject(case, w, data.get("signature"))
+        return
+    if case.get("route"):
+        got = L.safe_route(jinja2, case["route"], c, src)
+        print("route", case["route"], "->", got)
+        if got != "D " + spec_v:
+            ctx.reject(case, "%s renders %r, documented rules give %r" % (case["route"], got, spec_v), data.get("signature"))
+    elif case.get("src") and case["src"] != src:
+        got = real_render(jinja2, c, case["src"])
+        print("recorded template:", repr(case["src"]), "->", got)
+        if got != "D " + spec_v:
+            ctx.reject(case, "render %r, documented rules give %r" % (got, spec_v), data.get("signature"))
